@@ -240,6 +240,10 @@ func DecodeStream(r Getter, path *CycleCheck, x *Stream) (io.ReadCloser, error) 
 			applyCrypt = false
 		}
 	}
+	// Every stage of the chain is closed individually: a filter only sees
+	// the stage below it as an io.Reader and cannot release it, and some
+	// stages own a helper goroutine which runs until they are closed.
+	var below []io.Closer
 	if applyCrypt {
 		out, err = x.crypt.Decode(v, out, budget)
 		if err != nil {
@@ -248,12 +252,28 @@ func DecodeStream(r Getter, path *CycleCheck, x *Stream) (io.ReadCloser, error) 
 	}
 
 	for _, fi := range filters {
-		out, err = fi.Decode(v, out, budget)
+		next, err := fi.Decode(v, out, budget)
 		if err != nil {
+			out.Close()
+			closeAll(below)
 			return nil, src.promote(err)
 		}
+		below = append(below, out)
+		out = next
 	}
-	return &sourceAwareReader{inner: out, src: src}, nil
+	return &sourceAwareReader{inner: out, src: src, below: below}, nil
+}
+
+// closeAll closes the given stages, outermost (last) first, and returns the
+// first error.
+func closeAll(stages []io.Closer) error {
+	var first error
+	for i := len(stages) - 1; i >= 0; i-- {
+		if err := stages[i].Close(); err != nil && first == nil {
+			first = err
+		}
+	}
+	return first
 }
 
 // sourceErrChecker wraps the raw byte source underlying a decoded PDF
@@ -299,6 +319,7 @@ func (s *sourceErrChecker) promote(err error) error {
 type sourceAwareReader struct {
 	inner io.ReadCloser
 	src   *sourceErrChecker
+	below []io.Closer // the stages underneath inner, innermost first
 }
 
 func (s *sourceAwareReader) Read(p []byte) (int, error) {
@@ -309,7 +330,13 @@ func (s *sourceAwareReader) Read(p []byte) (int, error) {
 	return n, err
 }
 
-func (s *sourceAwareReader) Close() error { return s.inner.Close() }
+func (s *sourceAwareReader) Close() error {
+	err := s.inner.Close()
+	if e2 := closeAll(s.below); err == nil {
+		err = e2
+	}
+	return err
+}
 
 // GetFilters extracts the information contained in the /Filter and
 // /DecodeParms entries of a stream dictionary.
